@@ -566,16 +566,18 @@ def _dump_float(value: float) -> Union[float, str]:
     return value
 
 
-def load_varint(stream: "SupportsRead[bytes]") -> Tuple[int, bytes]:
+def load_varint(stream: "SupportsRead[bytes]", first: bytes = b"") -> Tuple[int, bytes]:
     """
     Load a single varint value from a stream. Returns the value and the raw bytes read.
+    ``first`` may hold the first byte of the varint if the caller already read it.
     """
     result = 0
     raw = b""
     for shift in count(0, 7):
         if shift >= 64:
             raise ValueError("Too many bytes when decoding varint.")
-        b = stream.read(1)
+        b = first or stream.read(1)
+        first = b""
         if not b:
             raise EOFError("Stream ended unexpectedly while attempting to load varint.")
         raw += b
@@ -606,10 +608,12 @@ class ParsedField:
 
 def load_fields(stream: "SupportsRead[bytes]") -> Generator[ParsedField, None, None]:
     while True:
-        try:
-            num_wire, raw = load_varint(stream)
-        except EOFError:
+        # The stream may only end cleanly at a field boundary, i.e. before the
+        # first byte of a tag; running out of data anywhere else is an error.
+        first = stream.read(1)
+        if not first:
             return
+        num_wire, raw = load_varint(stream, first)
         number = num_wire >> 3
         wire_type = num_wire & 0x7
 
